@@ -1017,6 +1017,10 @@ class TorControlProtocol(LineOnlyReceiver):
 
     def _accumulate_multi_response(self, line):
         "for FSM"
+        # Tor dot-encodes data blocks (control-spec 2.3, CmdData): a
+        # data line that starts with '.' gets an extra leading '.'
+        if line.startswith('..'):
+            line = line[1:]
         line_cb = self._line_callback()
         if line_cb is not None:
             line_cb(line)
